@@ -1082,7 +1082,7 @@ SERDE_CHECKED = {
     'bbsplus::keys::BBSplusPublicKey': {'G2Projective': 1},
     'bbsplus::keys::BBSplusSecretKey': {'Scalar': 1},
     'bbsplus::signature::BBSplusSignature': {'G1Projective': 1, 'Scalar': 1},
-    'bbsplus::proof::BBSplusPoKSignature': {'G1Projective': 3},
+    'bbsplus::proof::BBSplusPoKSignature': {'G1Projective': 3, 'Scalar': 4, 'Vec<Scalar>': 1},
 }
 
 
@@ -1108,9 +1108,12 @@ def rule_serde_checked_decoders(ctx, cfg='prod-all'):
             return None
         rty = b.local_ty(0)
         kind = None
+        first = rty[len('std::result::Result<'):].split(', <')[0].split(', D::')[0].strip() if rty.startswith('std::result::Result<') else ''
         for k in ('G1Projective', 'G2Projective', 'Scalar'):
-            if rty.startswith('std::result::Result<') and rty[len('std::result::Result<'):].split(',')[0].strip().endswith(k):
+            if first.endswith(k):
                 kind = k
+            if first.startswith('std::vec::Vec<') and first.rstrip('>').endswith(k):
+                kind = 'Vec<%s>' % k
         if kind is None:
             return None
         aps = ga.accept_paths(path)
